@@ -441,7 +441,7 @@ static std::vector<SectionCount> g_sections;
 // Violation keys name the *family* of spellings that reach the same entry point of the adaptor (the replay string keeps the exact spelling).
 static std::string family(std::string const& form) {
 	static std::map<std::string, std::string> const fam = {
-		{"gemm.operator*", "gemm.assign"}, {"gemm.construct", "gemm.new"}, {"gemm.decay", "gemm.new"}, {"gemm.assign-to-array", "gemm.new"},
+		{"gemm.operator*", "gemm.assign"}, {"gemm.assign-rescaled", "gemm.assign"}, {"gemm.pluseq-rescaled", "gemm.pluseq"}, {"gemm.construct", "gemm.new"}, {"gemm.decay", "gemm.new"}, {"gemm.assign-to-array", "gemm.new"},
 		{"gemv.construct", "gemv.new"}, {"gemv.decay", "gemv.new"}, {"gemv.operator%", "gemv.new"},
 		{"dot.result-arg", "dot.result"}, {"dot.result-0d", "dot.result"}, {"dot.decay", "dot.value"}, {"dot.operator,", "dot.value"},
 		{"axpy.operator+=", "axpy.inplace"}, {"axpy.operator-=", "axpy.inplace"}, {"axpy.pluseq", "axpy.range"}, {"axpy.minuseq", "axpy.range"}, {"axpy.operator+", "axpy.new"}, {"axpy.operator-", "axpy.new"},
@@ -489,7 +489,7 @@ template<class T> std::vector<T> ref_gemm(T alpha, Mat<T> const& A, Mat<T> const
 
 // call(alpha, A, B, beta, C) performs the library call on an existing output view.  ConjC: output wrappers are part of the grid.
 template<class T, bool ConjC, class Call>
-void grid_gemm(std::string const& form, ScalSet sa, ScalSet sb, Call call) {
+void grid_gemm(std::string const& form, ScalSet sa, ScalSet sb, Call call, int outer = 1) {   // outer: a factor the call applies to the lazy range itself (f*gemm(alpha,A,B))
 	if(!D.want(form, tcode<T>())) { return; }
 	long const g0 = D.gidx;
 	auto LA = mlayouts<T>(true), LB = mlayouts<T>(true), LC = mlayouts<T>(ConjC);
@@ -514,7 +514,7 @@ void grid_gemm(std::string const& form, ScalSet sa, ScalSet sb, Call call) {
 				A.template view<true>([&](auto& a) { B.template view<true>([&](auto& b) { C.template view<ConjC>([&](auto& c) {
 					A.fill(a, genA<T>, res); B.fill(b, genB<T>, res); C.fill(c, genC<T>, res);
 					if(res.code != 0) { return; }
-					auto expect = ref_gemm(alpha, A, B, beta, &C);
+					auto expect = ref_gemm(alpha*mk<T>(outer, 0), A, B, beta, &C);
 					if(!ran(guarded([&] { call(alpha, a, b, beta, c); }), res, m * n)) { return; }
 					C.check_out(c, expect, res); A.check_in(res); B.check_in(res);
 				}); }); });
@@ -568,6 +568,9 @@ template<class T> void section_gemm() {
 		grid_gemm<T, true>("gemm.inplace", all, all, [](T alpha, auto& a, auto& b, T beta, auto& c) { blas::gemm(alpha, a, b, beta, c); });
 		grid_gemm<T, false>("gemm.assign", all, zero, [](T alpha, auto& a, auto& b, T, auto& c) { c = blas::gemm(alpha, a, b); });
 		grid_gemm<T, false>("gemm.pluseq", all, one, [](T alpha, auto& a, auto& b, T, auto& c) { c += blas::gemm(alpha, a, b); });
+		// the lazy range re-scaled: both the range's own scale and the outer factor must end up in the product (seed C13f: the outer factor replaced the inner one)
+		grid_gemm<T, false>("gemm.assign-rescaled", all, zero, [](T alpha, auto& a, auto& b, T, auto& c) { c = mk<T>(2, 0)*blas::gemm(alpha, a, b); }, 2);
+		grid_gemm<T, false>("gemm.pluseq-rescaled", all, one, [](T alpha, auto& a, auto& b, T, auto& c) { c += mk<T>(2, 0)*blas::gemm(alpha, a, b); }, 2);
 		grid_gemm<T, false>("gemm.operator*", one, zero, [](T, auto& a, auto& b, T, auto& c) { using blas::operators::operator*; c = a * b; });
 		grid_gemm_new<T>("gemm.construct", all, [](T alpha, auto& a, auto& b) { multi::array<T, 2> r = blas::gemm(alpha, a, b); return r; });
 		grid_gemm_new<T>("gemm.decay", all, [](T alpha, auto& a, auto& b) { auto r = +blas::gemm(alpha, a, b); return multi::array<T, 2>(std::move(r)); });
